@@ -1,4 +1,5 @@
 import Spake2Model.Model.Spake2
+import Spake2Model.Model.System
 import Spake2Model.Model.Published
 /-!
 Line protocol: one operation per input line, one canonical result per output line.
@@ -24,14 +25,21 @@ structure AnyParams where
   g : DGroup
   p : Params g.toGroup
 
+/-- one multi-session system (`Model/System.lean`) per group object -/
+structure AnySys where
+  g : DGroup
+  sys : Sys g.toGroup
+
 structure AnySession where
   g : DGroup
   inst : Inst g.toGroup
 
 structure St where
   groups : List (Nat × DGroup) := []
-  params : List (Nat × AnyParams) := []
-  sessions : List (Nat × AnySession) := []
+  /-- one system per parameter set, keyed by parameter id; all session operations go through `Sys.step` -/
+  systems : List (Nat × AnySys) := []
+  /-- session id ↦ parameter id of the system it lives in -/
+  sessOf : List (Nat × Nat) := []
   elems : List (Nat × DElem) := []
 
 def find {α : Type} (k : Nat) : List (Nat × α) → Option α
@@ -102,6 +110,35 @@ def mkElem (g : DGroup) (e : g.toGroup.Elem) : DElem :=
   | .int P, v => .int P v
   | .ed c, v => .ed c v
 
+def outStr : SOut → String
+  | .ok b => "ok " ++ hexStr b
+  | .done => "ok"
+  | .err e => errStr e
+  | .nosuch => "bad-op"
+
+/-- apply one `SOp` to session `sid` in the system of parameter set `gid` -/
+def sysStep (st : St) (gid sid : Nat) (op : SOp) : St × String :=
+  match find gid st.systems with
+  | none => (st, "bad-op")
+  | some a =>
+    let r := a.sys.step sid op
+    ({ st with systems := put gid ⟨a.g, r.1⟩ st.systems }, outStr r.2)
+
+def sessionOf (st : St) (sid : Nat) : Option AnySession :=
+  match find sid st.sessOf with
+  | none => none
+  | some gid => match find gid st.systems with
+    | none => none
+    | some a => match a.sys.session sid with
+      | none => none
+      | some i => some ⟨a.g, i⟩
+
+/-- a fresh system holding exactly the parameter set `pid` -/
+def mkSys (g : DGroup) (pid : Nat) (p : Params g.toGroup) : AnySys := ⟨g, Sys.init [(pid, p)]⟩
+
+/-- parameter id reserved for `newdef` (sessions created without `params=`) -/
+def defaultPid : Nat := 1000000
+
 def pubGroup : String → Option DGroup
   | "ed" => some (.ed Published.curve)
   | "1024" => some (.int Published.i1024)
@@ -135,16 +172,23 @@ def step (st : St) (line : String) : St × String :=
     match nat? pid, pubGroup which with
     | some pid, some g =>
       match mkParams g.toGroup Published.seedM Published.seedN Published.seedS with
-      | .ok p => ({ st with params := put pid ⟨g, p⟩ st.params }, "ok")
+      | .ok p => ({ st with systems := put pid (mkSys g pid p) st.systems }, "ok")
       | .error e => (st, errStr e)
     | _, _ => bad
   | ["newdef", sid, side, pw, idA, idB, ent] =>
     match nat? sid, parseSide side, parseHex pw, parseHex idA, parseHex idB, parseHex ent with
     | some sid, some side, some pw, some idA, some idB, some ent =>
       let g := DGroup.ed Published.curve
-      match mkParams g.toGroup Published.seedM Published.seedN Published.seedS with
-      | .ok p => ({ st with sessions := put sid ⟨g, Inst.new side pw idA idB p ⟨ent⟩⟩ st.sessions }, "ok")
-      | .error e => (st, errStr e)
+      let st1 : Option St := match find defaultPid st.systems with
+        | some _ => some st
+        | none => match mkParams g.toGroup Published.seedM Published.seedN Published.seedS with
+          | .ok p => some { st with systems := put defaultPid (mkSys g defaultPid p) st.systems }
+          | .error _ => none
+      match st1 with
+      | none => (st, "raise:other/ParamsFailed")
+      | some st1 =>
+        let r := sysStep st1 defaultPid sid (.new side defaultPid pw idA idB ⟨ent⟩)
+        ({ r.1 with sessOf := put sid defaultPid r.1.sessOf }, r.2)
     | _, _, _, _, _, _ => bad
   | ["group", gid, "edtoy", q, l, d, i, bx, byy] =>
     match nat? gid, int? q, int? l, int? d, int? i, int? bx, int? byy with
@@ -157,42 +201,36 @@ def step (st : St) (line : String) : St × String :=
       match find gid st.groups with
       | some g =>
         match mkParams g.toGroup m n s with
-        | .ok p => ({ st with params := put pid ⟨g, p⟩ st.params }, "ok")
+        | .ok p => ({ st with systems := put pid (mkSys g pid p) st.systems }, "ok")
         | .error e => (st, errStr e)
       | none => bad
     | _, _, _, _, _ => bad
   | ["new", sid, side, pid, pw, idA, idB, ent] =>
     match nat? sid, parseSide side, nat? pid, parseHex pw, parseHex idA, parseHex idB, parseHex ent with
     | some sid, some side, some pid, some pw, some idA, some idB, some ent =>
-      match find pid st.params with
-      | some ap => ({ st with sessions := put sid ⟨ap.g, Inst.new side pw idA idB ap.p ⟨ent⟩⟩ st.sessions }, "ok")
-      | none => bad
+      let r := sysStep st pid sid (.new side pid pw idA idB ⟨ent⟩)
+      ({ r.1 with sessOf := put sid pid r.1.sessOf }, r.2)
     | _, _, _, _, _, _, _ => bad
   | ["start", sid] =>
-    match nat? sid >>= (find · st.sessions) with
-    | some s =>
-      let (i, r) := s.inst.start
-      ({ st with sessions := put (nat? sid).get! ⟨s.g, i⟩ st.sessions }, showR hexStr r)
-    | none => bad
-  | ["finish", sid, msg] =>
-    match nat? sid >>= (find · st.sessions), parseHex msg with
-    | some s, some msg =>
-      let (i, r) := s.inst.finish msg
-      ({ st with sessions := put (nat? sid).get! ⟨s.g, i⟩ st.sessions }, showR hexStr r)
+    match nat? sid, nat? sid >>= (find · st.sessOf) with
+    | some sid, some pid => sysStep st pid sid .start
     | _, _ => bad
+  | ["finish", sid, msg] =>
+    match nat? sid, nat? sid >>= (find · st.sessOf), parseHex msg with
+    | some sid, some pid, some msg => sysStep st pid sid (.finish msg)
+    | _, _, _ => bad
   | ["ser", sid] =>
-    match nat? sid >>= (find · st.sessions) with
-    | some s => (st, showR hexStr s.inst.serialize)
-    | none => bad
+    match nat? sid, nat? sid >>= (find · st.sessOf) with
+    | some sid, some pid => sysStep st pid sid .serialize
+    | _, _ => bad
   | ["restore", sid, side, pid, data] =>
-    match nat? sid, parseSide side, nat? pid >>= (find · st.params), parseHex data with
-    | some sid, some side, some ap, some data =>
-      match fromSerialized side data ap.p with
-      | .ok i => ({ st with sessions := put sid ⟨ap.g, i⟩ st.sessions }, "ok")
-      | .error e => (st, errStr e)
+    match nat? sid, parseSide side, nat? pid, parseHex data with
+    | some sid, some side, some pid, some data =>
+      let r := sysStep st pid sid (.restore side pid data)
+      if r.2 = "ok" then ({ r.1 with sessOf := put sid pid r.1.sessOf }, r.2) else r
     | _, _, _, _ => bad
   | ["state", sid] =>
-    match nat? sid >>= (find · st.sessions) with
+    match nat? sid >>= sessionOf st with
     | some s =>
       let i := s.inst
       let sc := match i.xyScalar with | some x => toString x | none => "none"
@@ -200,11 +238,11 @@ def step (st : St) (line : String) : St × String :=
       (st, s!"st {i.started} {i.finished} {sc} {ob} {i.pwScalar}")
     | none => bad
   | ["entleft", sid] =>
-    match nat? sid >>= (find · st.sessions) with
+    match nat? sid >>= sessionOf st with
     | some s => (st, s!"ok {s.inst.entropy.stream.length}")
     | none => bad
   | ["hashparams", sid] =>
-    match nat? sid >>= (find · st.sessions) with
+    match nat? sid >>= sessionOf st with
     | some s => (st, showR hexStr (s.inst.hashParams.map (fun h => (unhexlify h).getD [])))
     | none => bad
   | ["sizebits", n] => match int? n with | some n => (st, s!"ok {Util.size_bits n}") | none => bad
